@@ -75,13 +75,23 @@ def compare_cases(ctx, kt, cases, labels, fields_for, tag, monitor=None, nontriv
             if kt.endswith("_plain"):
                 skip |= {"sgn", "vfy"}
             # lossy UTF-8 conversions are outside the model: compare only when the model's bytes are valid UTF-8
+            shape = []
             for f in ("id", "client"):
                 mv = fb.get(f)
                 if mv and mv != "none" and not all(utf8_ok(x) for x in mv.split(",")):
                     skip.add(f)
+                    # ... but the SHAPE is inside the model: the same number of components, and the components that are
+                    # valid UTF-8 are reported as they are (only the lossy conversion of the others is not compared)
+                    if flds is None or f in flds:
+                        av = fa.get(f)
+                        ac, mc = (av or "none").split(","), mv.split(",")
+                        if av in (None, "none") or len(ac) != len(mc) or any(utf8_ok(y) and x != y for x, y in zip(ac, mc)):
+                            shape.append((f + "#shape", av, mv))
             if ctx.pid in ("C04", "C12") and fa.get("alt", "1") != "1":
                 ctx.finding("monitor", kt, case, li, "the JSON form does not deserialise the same way through serde_json::from_str / from_slice / from_reader / from_value", a, b)
             d = diff_lines(a, b, flds, skip)
+            if shape and cls(ha) == cls(hb) and "panic" not in ha:
+                d = d + shape
             if d:
                 ctx.finding("disagreement", kt, case, li, d, a, b)
             else:
@@ -214,6 +224,12 @@ def decode_inputs(ctx, kt, n_valid, with_tampers, with_struct, n_unstructured, n
     inputs, labels = [], []
     for r in recs:
         inputs.append(r["bytes"]); labels.append("valid")
+    # the other entry points' forms handed to this one: the text of a valid record, its base64 body and its JSON string as
+    # BYTES (each begins with a complete one-byte RLP item, so the binary decoder must treat it as that item)
+    for r in recs[:3]:
+        t = b"enr:" + gens.b64(r["bytes"])
+        for lab, b in (("text_form_as_bytes", t), ("base64_body_as_bytes", t[4:]), ("json_form_as_bytes", b'"' + t + b'"'), ("record_then_text_form", r["bytes"] + t)):
+            inputs.append(b); labels.append(lab)
     brecs = gens.boundary_records(rng, o, kt)
     for r in brecs:
         inputs.append(r["bytes"]); labels.append("valid_framing_boundary")
@@ -864,12 +880,17 @@ def cross_scheme_cases(ctx, kt):
     return cases
 
 
-def op_state_matrix(ctx, kt):
+def op_state_matrix(ctx, kt, first_scheme=None):
     """every mutator x a fixed set of record states x argument classes (the value already stored / another valid value /
     an invalid one) x signer (the record's key, another key of the scheme, a key of the other scheme under CombinedKey),
     each as a two-step case: the call, and the same call again. Systematic where the random histories are not."""
     rng, o = ctx.rng, ctx.oracle
     ks = gens.secrets(rng, o, kt, 6)
+    if kt == "comb" and first_scheme is None:
+        # once with a secp256k1-keyed record and once with an ed25519-keyed one (the other scheme's key is slot c)
+        return op_state_matrix(ctx, kt, "k") + op_state_matrix(ctx, kt, "ed")
+    if first_scheme is not None:
+        ks = [k for k in ks if k.scheme == first_scheme][:1] + [k for k in ks if k.scheme != first_scheme][:1] + [k for k in ks if k.scheme == first_scheme][1:]
     a = ks[0]
     same = [k for k in ks[1:] if k.scheme == a.scheme]
     other = [k for k in ks[1:] if k.scheme != a.scheme]
@@ -910,16 +931,41 @@ def op_state_matrix(ctx, kt):
         for s2, k2 in slots:
             out.append("set_public_key %s 0 %s" % (sl, s2))
             out.append("insert %s 0 %s b:%s" % (sl, hx(k2.entry), hx(k2.pub)))
+        # an insert list that alone exceeds the limit (every cause that can hold together with it)
+        out.append("remove_insert %s 0 none %s:%s,%s:%s" % (sl, hx(b"big1"), hx(b"x" * 150), hx(b"big2"), hx(b"y" * 150)))
+        out.append("remove_insert %s 0 %s %s:%s" % (sl, hx(b"id"), hx(b"big1"), hx(b"x" * 290)))
+        out.append("insert %s 0 %s b:%s" % (sl, hx(b"big"), hx(b"z" * 290)))
         return out
+    def must_ops(name, sl):
+        # combinations the sampling of the quick tier must not skip: removals on large records by every signer
+        if name.startswith("sz") or name == "both":
+            return ["remove_udp4 %s 0" % sl, "remove_tcp %s 0" % sl, "remove_key %s 0 %s" % (sl, hx(b"nokey")), "remove_udp_socket %s 0" % sl,
+                    "remove_insert %s 0 %s none" % (sl, hx(b"udp"))]
+        if name in ("max", "max-1"):
+            return ["remove_insert %s 0 none %s:%s,%s:%s" % (sl, hx(b"big1"), hx(b"x" * 150), hx(b"big2"), hx(b"y" * 150)),
+                    "remove_insert %s 0 %s none" % (sl, hx(b"id")), "insert %s 0 %s b:%s" % (sl, hx(b"big"), hx(b"z" * 290))]
+        return []
     cases = []
     for name, sq, pairs in states:
         b = record_bytes(o, a, sq, sorted(pairs.items()))[0]
         for sl, k in slots:
             ops = ops_for(pairs, sl)
             if ctx.quick:
-                ops = rng.sample(ops, 14 if sl == "a" else 8)
+                ops = rng.sample(ops, 14 if sl == "a" else 8) + must_ops(name, sl)
             for op in ops:
                 cases.append(head + ["load " + b.hex(), "op " + op, "op " + op])
+    # entry names that are a reserved name plus / minus one character: ordinary keys, any single item is a legal value
+    affix = []
+    for rn in gens.RESERVED + [b"toy"]:
+        for ch in b"46_-0sx":
+            affix += [rn + bytes([ch]), bytes([ch]) + rn]
+        affix += [rn[:-1], rn[1:], rn + rn, rn.upper()]
+    affix = [k for k in dict.fromkeys(affix) if k not in gens.RESERVED and k != a.entry and k not in (b"toy",)]
+    b = record_bytes(o, a, 5, sorted(typical.items()))[0]
+    vals = ["b:%s" % hx(b"v5"), "u64:70000", "l:%s" % hx(b"x")] if False else ["b:%s" % hx(b"v5"), "u64:70000"]
+    for k in (affix if not ctx.quick else rng.sample(affix, min(len(affix), 60)) + [x for x in (b"id6", b"secp256k16", b"ed255196", b"ip66", b"tcp66") if x in affix]):
+        cases.append(head + ["load " + b.hex(), "op insert a 0 %s %s" % (hx(k), rng.choice(vals)), "op insert_raw a 0 %s %s" % (hx(k), hx(rlp_list(rlp_str(b"q")))),
+                             "build a 0 1 val/%s/b:%s" % (hx(k), hx(b"\x01\x02\x03"))])
     return cases
 
 
@@ -942,6 +988,14 @@ def port_cases(ctx, kt, ports):
             cases.append(["key a " + a.spec, "build a 0 1 tcp4/%d udp6/%d tcp6/%d udp4/%d" % (p, (p * 7) % 65536, 65535 - p, p ^ 1)])
             pairs = {b"id": rlp_str(b"v4"), a.entry: rlp_str(a.pub), rng.choice([b"tcp", b"udp", b"tcp6", b"udp6"]): rlp_uint(p)}
             cases.append(["decode " + record_bytes(o, a, 1, sorted(pairs.items()))[0].hex()])
+    # client entries whose items are not all valid UTF-8 (the accessor converts lossily, item by item): 2 and 3 items,
+    # the bad item at every position; also 1, 4 and 5 items, and a nested list
+    bad = b"\xde\xad\xbe\xef"
+    for items in ([bad, b"v"], [b"n", bad], [bad, b"v", b"b"], [b"n", bad, b"b"], [b"n", b"v", bad], [b"n", b"v", b"\xff"], [bad, bad, bad],
+                  [b"n"], [b"n", b"v", b"b", b"x"], [b"n", b"v", b"b", b"x", bad], []):
+        raw = rlp_list(b"".join(rlp_str(x) for x in items))
+        cases.append(["key a " + a.spec, "build a 0 1", "op insert_raw a 0 %s %s" % (hx(b"client"), hx(raw)), "build a 0 1 raw/%s/%s" % (hx(b"client"), hx(raw))])
+    cases.append(["key a " + a.spec, "build a 0 1", "op insert_raw a 0 %s %s" % (hx(b"client"), hx(rlp_list(rlp_list(rlp_str(b"n")) + rlp_str(b"v"))))])
     # IPv6 socket addresses with a scope id / flow info (not stored in a record): stored and read back like plain ones
     for ext in ("%3", "%0^7", "%4294967295", "%1^1048575", ""):
         a6 = gens.raddr(rng, 16).hex()
@@ -982,11 +1036,22 @@ def check_history_property(ctx):
             cases += cross_scheme_cases(ctx, gk)
         if pid in ("C05", "C08", "C14", "C09"):
             cases += builder_reuse_cases(ctx, gk)
-        if pid in ("C05", "C06", "C07", "C08", "C10"):
+        if pid in ("C05", "C06", "C07", "C08", "C09", "C10"):
             cases += op_state_matrix(ctx, gk)
         if pid == "C08":
             # error kinds at the size limit: ExceedsMaxSize exactly when the result would not fit
             cases += size_neutral_cases(ctx, gk)[:ctx.scale(30, 300)]
+            # the builder given an entry under the signer's own key name: the own key in every encoding (compressed,
+            # uncompressed, hybrid), another valid key, junk — what is built carries the signer's key in the canonical form
+            bk = gens.secrets(ctx.rng, ctx.oracle, gk, 3)
+            forms = [bk[0].pub, bk[1].pub, b"junk", b""]
+            if getattr(bk[0], "pub_unc", None):
+                forms += [bk[0].pub_unc, bytes([6 + (bk[0].pub_unc[-1] & 1)]) + bk[0].pub_unc[1:], bk[0].pub_unc[1:]]
+                if getattr(bk[1], "pub_unc", None):
+                    forms.append(bk[1].pub_unc)
+            for fm in forms:
+                for how in ("raw/%s/%s" % (hx(bk[0].entry), hx(rlp_str(fm))), "val/%s/b:%s" % (hx(bk[0].entry), hx(fm))):
+                    cases.append(["key a " + bk[0].spec, "build a 0 1 udp4/30303 " + how, "rebuild a 0", "op set_tcp4 a 0 80"])
             # remove_insert with repeated keys: the same key twice among the inserts (absent / present before), a key both
             # removed and inserted, a key removed twice — the returned previous values are those of a sequential map
             a8 = gens.secrets(ctx.rng, ctx.oracle, gk, 1)[0]
@@ -999,7 +1064,7 @@ def check_history_property(ctx):
                               "op remove_insert a 0 none %s:%s,%s:%s,%s:%s" % (kx, hx(b"p"), ky, hx(b"\x50"), kx, hx(b"q")),
                               "op remove_insert a 0 %s,%s %s:%s,%s:%s" % (ky, kx, ky, hx(b"\x51"), ky, hx(b"\x52"))])
         if pid in ("C05", "C09"):
-            recs_d, inputs_d, labels_d = decode_inputs(ctx, gk, ctx.scale(4, 40), 0, ctx.scale(3, 30), ctx.scale(5, 100), 0)
+            recs_d, inputs_d, labels_d = decode_inputs(ctx, gk, ctx.scale(4, 40), ctx.scale(1, 4), ctx.scale(3, 30), ctx.scale(5, 100), ctx.scale(40, 300))
             cases += [["decode " + hx(b)] for b in inputs_d]
         if pid == "C10":
             # keys whose (uncompressed) public key begins with a SEC1 tag byte or another special byte
@@ -1037,6 +1102,10 @@ def check_history_property(ctx):
                     if ctx.rng.random() < 0.5:
                         # a signer that fails silently: Ok with a signature that does not verify
                         t[3] = "2"
+                        extra.append(case[:i] + [" ".join(t)] + case[i + 1:])
+                    if ctx.rng.random() < 0.5:
+                        # a signer that panics (the caller catches the unwind): the following calls must be unaffected
+                        t[3] = "3"
                         extra.append(case[:i] + [" ".join(t)] + case[i + 1:])
             cases += extra
         hres = compare_cases(ctx, kt, cases, None, fields_for, pid.lower(), mon)
@@ -1507,7 +1576,7 @@ def check_C03(ctx):
             ops = [i for i, c in enumerate(case) if c.startswith("op ")]
             for i in ops[:4]:
                 t = case[i].split()
-                t[3] = rng.choice(["1", "2"])
+                t[3] = rng.choice(["1", "2", "3"])
                 extra.append(case[:i] + [" ".join(t)] + case[i + 1:])
         cases += extra
         if kt == "k256":
